@@ -369,7 +369,8 @@ HandleUeNasO(amf, i, t, ngapMsg, o) ==
                                    THEN {who \o ": PDU session identity " \o ToString(psiIe.v[1]) \o " in the transport header but " \o ToString(psiHdr) \o " in the 5GSM message"} ELSE {}) IN
                IF ~sm.ok THEN Res(SetCtx(amf, i, c1), <<>>, common, m.name)
                ELSE CASE sm.m.name = "PDUSessionEstablishmentRequest" ->
-                           LET inner == NasEncode(NasPduAccept(ch, psiHdr, pti))
+                           \* (acceptTail: information elements of later releases behind the tabulated ones, see GenExtract)
+                           LET inner == NasEncode(NasPduAccept(ch, psiHdr, pti)) \o Pick(ch, "acceptTail", <<>>)
                                dlt == DlProtect(c1.sec, NasEncode(NasDlTransport(inner, psiHdr)), 2)
                                \* optionally another NAS message for the UE rides in the message-level NAS-PDU IE: a 5GMM STATUS, protected
                                \* under the next downlink COUNT
@@ -379,7 +380,7 @@ HandleUeNasO(amf, i, t, ngapMsg, o) ==
                                \* optionally (ch.setupFill = n > 0) the SMF's QoS rules are stretched or shortened until the whole NGAP message is
                                \* exactly n octets long - 2048 is the largest message the emulator's receive buffer holds
                                fill == Pick(ch, "setupFill", 0)
-                               FillBuild(chx) == LET inn == NasEncode(NasPduAccept(chx, psiHdr, pti))
+                               FillBuild(chx) == LET inn == NasEncode(NasPduAccept(chx, psiHdr, pti)) \o Pick(chx, "acceptTail", <<>>)
                                                  dlp == DlProtect(c1.sec, NasEncode(NasDlTransport(inn, psiHdr)), 2)
                                                  ex == DlProtect(dlp.sec, NasEncode(Mk5GMM("Status5GMM", << <<111>> >>, <<>>)), 2)
                                              IN NgapEncode(PduSetupRequest(c2, chx, psiHdr, dlp.bytes, IF withMsg THEN ex.bytes ELSE <<>>))
